@@ -1,6 +1,7 @@
 package main
 
 import (
+	"bytes"
 	"encoding/json"
 	"log/slog"
 	"time"
@@ -97,6 +98,16 @@ var c04HeldRaw []int
 
 func c04Decode(w *tr.Writer, frame []byte, path, cls string, pad int, lv slog.Level) {
 	ev := c04Event{Raw: tr.Ints(frame), Path: path, Cls: cls, Pad: pad, SatMask: []int{}, SigMask: []int{}, CellMask: []int{}, Sats: []int{}, Sigs: []int{}, SatCells: [][]int{}, Cells: [][]int{}}
+	// the frame is handed over as a slice of a larger array: decoding only reads it, and nothing behind it either
+	backing := append(append(make([]byte, 0, len(frame)+16), frame...), bytes.Repeat([]byte{0xa5}, 16)...)
+	frame = backing[:len(frame)]
+	before := append([]byte{}, backing...)
+	defer func() {
+		if !bytes.Equal(before, backing) {
+			w.Emit(c04Event{Raw: tr.Ints(before[:len(frame)]), Path: path, Cls: "caller memory", Pad: 0, SatMask: []int{}, SigMask: []int{}, CellMask: []int{}, Sats: []int{}, Sigs: []int{}, SatCells: [][]int{}, Cells: [][]int{},
+				Err: "decoding wrote to the caller's memory (the frame or the bytes behind it)"})
+		}
+	}()
 	ev.Panic = tr.Recover(func() {
 		typ := int(frame[3])<<4 | int(frame[4])>>4
 		var m4 *msm4.Message
